@@ -1787,6 +1787,15 @@ def check_C18(v, tier, seed):
         if want != const:
             bad("a binding's named constant denotes another header constant than its name says",
                 f"{binding}: {alias} = {const} (value {henums.get(const)}), the header constant of that name is {want} (value {henums.get(want)})")
+    # argument order at the cgo call sites: a variable named after a parameter of the called function stands at that
+    # parameter's position (two same-typed arguments exchanged keep every width and class: seeded change C18/e)
+    for i, j, what in A.arg_order_pairs():
+        items.append(what)
+        if i != j:
+            fname = what.split(":", 1)[1].split("#", 1)[0]
+            bad("a cgo call passes arguments in another order than the header declares them",
+                f"{what}: argument {i} of C.{fname} is the variable named after parameter {j} "
+                f"({', '.join(A.HEADER_PARAMS.get(fname, []))})")
     extra = {}
     if tier == "thorough":
         extra = thorough_C18(v, hfns, henums)
